@@ -368,6 +368,167 @@ def check_schedule_model(ctx):
     return ob
 
 
+def _lock_class(name):
+    n = name.rstrip("'")
+    for key, cls in (('journal_manager', 'journal manager'), ('keyspaces', 'keyspace dictionary'), ('backpressure_lock', 'backpressure lock'), ('write_serialize_lock', 'oracle commit lock'),
+                     ('single_writer_lock', 'single-writer lock'), ('gc_lock', 'snapshot gc lock'), ('thread_handles', 'worker handles'), ('flush_manager', 'flush queue')):
+        if key in n:
+            return cls
+    if 'journal' in n:
+        return 'journal lock'
+    return n.split('.')[-1].split('→')[-1] or n
+
+
+LOCK_ORDER_ENTRIES = [
+    (r'^db::<impl>::keyspace$', {'no_inline': [r'apply_to_base_config$', r'lsm_tree::Config::open$', r'Keyspace::create_new$', r'keyspace::<impl>::create_new$', r'encode_kvs$', r'MetaKeyspace::maintenance$']}),
+    (r'^db::<impl>::delete_keyspace$', {'no_inline': [r'MetaKeyspace::maintenance$']}),
+    (r'^db::<impl>::persist$', {}),
+    (r'^ingestion::<impl>::finish$', {'no_inline': [r'SnapshotTracker::gc$']}),
+    (r'^keyspace::<impl>::rotate_memtable$', {'no_inline': [r'SnapshotTracker::(gc|pullup)$', r'get_version_history_lock$', r'JournalManager::maintenance$']}),
+    (r'^db::<impl>::drop$', {'no_inline': [r'FlushManager::clear$', r'StopSignal::send$']}),
+]
+
+
+def check_lock_order(ctx):
+    """deadlock freedom of the foreground/background lock protocol: over all symbolic paths of the writers, the worker tick, keyspace creation/deletion, persist, ingestion, rotation
+    and drop, collect every pair (lock held -> lock acquired) and require the relation to be acyclic (a cycle = two threads that can wait for each other forever)"""
+    ob = ctx.ob('locks/acyclic-order', 'no two code paths acquire two of the database\'s locks (journal lock, journal manager, keyspace dictionary, ...) in opposite orders: the held->acquired relation over '
+                'writers, worker tick, keyspace create/delete, persist, ingestion, rotation and drop is acyclic', ['*'])
+    edges = {}       # (a, b) -> (entry, path)
+    skipped = []
+
+    def scan(entry, paths):
+        for p in paths:
+            held = []
+            for e in p.events:
+                if e.kind in ('LOCK', 'RLOCK', 'WLOCK'):
+                    c = _lock_class(obj_name(e))
+                    for h in held:
+                        if h != c:
+                            edges.setdefault((h, c), (entry, p))
+                    held.append(c)
+                    ob.reach += 1
+                elif e.kind == 'UNLOCK':
+                    c = _lock_class(obj_name(e))
+                    if c in held:
+                        held.reverse(); held.remove(c); held.reverse()
+    for op in ('insert', 'remove', 'remove_weak', 'clear', 'batch'):
+        ex, paths, recs = W.run_op(ctx, op, value_types=['Value'] if op == 'batch' else None)
+        scan(op, paths)
+    from . import c10
+    ex, paths = c10.run_tick(ctx)
+    scan('worker_tick', paths)
+    for pat, kw in LOCK_ORDER_ENTRIES:
+        try:
+            ex, paths = ctx.run(pat, cache_key='lockorder.' + pat, loop_bound=2, **kw)
+            scan(pat.strip('^$'), paths)
+        except Exception as e:      # noqa
+            skipped.append(f'{pat}: {e!r}'[:120])
+    # cycle search
+    graph = {}
+    for (a, b) in edges:
+        graph.setdefault(a, set()).add(b)
+    cyc = None
+
+    def dfs(n, stack, seen):
+        nonlocal cyc
+        if cyc:
+            return
+        for m in graph.get(n, ()):
+            if m in stack:
+                cyc = stack[stack.index(m):] + [m]; return
+            if m not in seen:
+                seen.add(m); dfs(m, stack + [m], seen)
+    for n in list(graph):
+        if cyc:
+            break
+        dfs(n, [n], {n})
+    ob.sample = {'edges': sorted(f'{a} -> {b} ({edges[(a, b)][0]})' for a, b in edges), 'skipped': skipped}
+    if ob.reach == 0:
+        ob.status = 'undecided'; ob.detail = 'vacuous'
+    elif cyc is None:
+        ob.status = 'discharged'
+    else:
+        pairs = list(zip(cyc, cyc[1:]))
+        why = '; '.join(f'{a} is held while {b} is taken in {edges[(a, b)][0]}' for a, b in pairs)
+        ctx.candidate(ob, 'locks/opposite-orders', f'{ob.id}: lock-order cycle {" -> ".join(cyc)}: {why}: two threads on these paths can block each other forever', confirm=lambda: native_lock_inversion(ctx))
+    return ob
+
+
+def native_lock_inversion(ctx):
+    """a batch committer is parked right before it takes the journal lock (holding whatever it took before); a flush tick with a forced journal rotation runs on another thread
+    (journal lock -> journal manager -> keyspace dictionary); then the committer is released.  Both must finish."""
+    K = '6b31'
+    L = ['dir $DIR/db', 'open workers=0', 'rotation_threshold 0', 'ks a', 'ks b', f'insert a {K} 31', f'insert b {K} 41', 'rotate a',
+         'arm_pause journal.get_writer', f'spawn B batch2 a 6b32 42 b 6b32 42', 'wait_parked journal.get_writer 4000', 'spawn_free W wdrain', 'sleep 500', 'release journal.get_writer',
+         'join_timeout B 6000', 'join_timeout W 6000']
+    spath, out = ctx.run_scenario('\n'.join(L) + '\n', tag='lock-inversion')
+    rs = [(c, r) for _i, c, r in out]
+    parked = [r for c, r in rs if c == 'wait_parked']
+    if not parked or not parked[0].startswith('ok'):
+        return False, spath, f'the committer did not reach the journal lock ({parked})'
+    jt = [r for c, r in rs if c == 'join_timeout']
+    if len(jt) == 2 and jt[0] == 'pending' and jt[1] == 'pending':
+        return True, spath, 'deadlock: a batch commit and a flush tick with journal rotation wait for each other (neither finished within 6 s after the committer was released); every later writer blocks on the journal lock'
+    if any(c == 'CRASH' for c, _r in rs):
+        return False, spath, 'replay ended abnormally: ' + rs[-1][1][-200:]
+    return False, spath, f'held natively (committer: {jt[:1]}, flush tick: {jt[1:]})'
+
+
+def check_compaction_progress(ctx):
+    """the write halt (L0 run count) ends only through compactions: a Compact request must be acted upon - a worker may hand it back to the queue only when another worker exists"""
+    ob = ctx.ob('compact/single-worker-compacts', 'worker_tick(Compact): the request is re-queued instead of run only if the pool has more than one worker; with a single worker it is run '
+                '(otherwise nothing ever reduces the L0 run count and the write halt never ends)', [r'worker_tick'])
+    from . import c10
+    ex, paths = c10.run_tick(ctx)
+    names = ex.src.struct_fields('worker_pool::WorkerState')
+    bad = []
+    for p in paths:
+        if p.status != 'returned':
+            continue
+        calls = [e for e in p.events if e.kind == 'CALL']
+        ran = [e for e in calls if e.args.get('callee', '').endswith(('compaction::worker::run', 'run_compaction'))]
+        requeued = [e for e in calls if e.args.get('callee', '').endswith('Sender::send')]
+        flush = [e for e in calls if e.args.get('callee', '').endswith(('flush::worker::run', 'run_flush', 'FlushManager::dequeue', 'inner_rotate_memtable'))]
+        if flush or not (ran or requeued):
+            continue
+        ob.reach += 1
+        if requeued and not ran:
+            fr = p.st.frames[0] if p.st.frames else None
+            ws = deref(fr.locals[fr.fn.args[0]].val) if fr is not None else None
+            ps = ws.fields.get(names.index('pool_size')) if isinstance(ws, Obj) else None
+            if ps is None or not z3.is_expr(ps.val):
+                bad.append((p, 'a compaction request is handed back to the queue without looking at the pool size')); continue
+            if ctx.sat(p.pc + [ps.val == bv(1)], ob)[0] != z3.unsat:
+                bad.append((p, 'with a pool of ONE worker the compaction request is put back into the queue instead of being run: no compaction ever happens, the L0 run count only grows and writers halt forever'))
+    if ob.reach == 0:
+        ob.status = 'undecided'; ob.detail = 'vacuous'
+    elif not bad:
+        ob.status = 'discharged'; ob.sample = {'paths': ob.reach}
+    else:
+        ctx.candidate(ob, 'worker/compaction-never-runs', f'{ob.id}: {bad[0][1]}', confirm=lambda: native_single_worker_compacts(ctx))
+    return ob
+
+
+def native_single_worker_compacts(ctx):
+    """one real worker thread; eight overlapping flushes of the same keys: the leveled strategy must bring the L0 run count back down"""
+    L = ['dir $DIR/db', 'open workers=1', 'ks a']
+    for i in range(8):
+        L += [f'insert a 6b31 {0x30 + i:02x}', f'insert a 6b39 {0x30 + i:02x}', 'rotate_wait a']
+    L += ['sleep 3000', 'l0_runs a', 'close']
+    spath, out = ctx.run_scenario('\n'.join(L) + '\n', tag='single-worker-compacts')
+    rs = [(c, r) for _i, c, r in out]
+    if any(c == 'CRASH' for c, _r in rs):
+        return False, spath, 'replay ended abnormally: ' + rs[-1][1][-200:]
+    l0 = [r for c, r in rs if c == 'l0_runs']
+    if l0 and l0[0].startswith('n='):
+        n = int(l0[0][2:])
+        if n >= 8:
+            return True, spath, f'with a single worker thread no compaction ever ran: {n} L0 runs after 8 flushes and 3 s of idle time (at 30 the writers halt forever)'
+        return False, spath, f'held natively ({n} L0 runs left)'
+    return False, spath, f'no answer ({l0})'
+
+
 def run(ctx):
     ctx.assumptions += [
         'E10/F3: every environment call is atomic and sequentially consistent at event granularity; Mutex gives mutual exclusion',
@@ -380,6 +541,8 @@ def run(ctx):
     check_ingestion(ctx)
     check_stall_outside_lock(ctx)
     check_schedule_model(ctx)
+    check_lock_order(ctx)
+    check_compaction_progress(ctx)
     for o in ctx.obligations:
         ctx.samples.append(o.as_dict())
     return ctx.finish()
